@@ -386,6 +386,10 @@ def run(w, rep, tier):
     check_quaternion_tables(w, rep)
     from .c07 import check_from_matrix
     check_from_matrix(w, rep, R="C01.right-inverse", RV="C01.right-inverse", RS="C01.right-inverse")
+    # SO3Mrp.from_Matrix (and SE3Mrp / SE23Mrp through it) is routed Dcm -> Quat -> Mrp (C07.flow): its right-inverse
+    # property is the Shepperd rule above composed with "SO3Mrp.from_Quat keeps the rotation matrix" (both signs of q0)
+    from .c07 import check_pairs
+    check_pairs(w, rep, tier, only={("SO3Quat", "SO3Mrp")}, RP="C01.right-inverse", RA="C01.API")
     check_default_product(w, rep)
     prods = [("SO3Mrp*R3", ["SO3Mrp", "R3"]), ("SO3Quat*R3", ["SO3Quat", "R3"]), ("SE2*R2*SO2", ["SE2", "R2", "SO2"])]
     if tier == "thorough":
